@@ -227,7 +227,7 @@ func (r *Runner) attachOpts(i int) []interface{} {
 	return opts
 }
 
-func (r *Runner) addPeer(late bool) *Failure {
+func (r *Runner) addPeer(late bool, pre ...Step) *Failure {
 	c, err := r.S.NewClient(r.ctx, r.Proj)
 	if err != nil {
 		return failf("ACTIVATEFAIL", "%v", err)
@@ -235,6 +235,15 @@ func (r *Runner) addPeer(late bool) *Failure {
 	p := &Peer{Idx: len(r.Peers), C: c, D: r.newDoc(), Late: late, ID: c.ID().String()}
 	r.Peers = append(r.Peers, p)
 	r.byID[p.ID] = p
+	// edits made before the document is attached (they are pushed by the attach)
+	for _, e := range pre {
+		desc, err := ApplyEdit(p.D, e)
+		r.log("c%d (not attached yet): %s", p.Idx, desc)
+		if err != nil {
+			return failf("EDITFAIL", "c%d before attach: %s: %v", p.Idx, desc, err)
+		}
+		r.Ev["edit_before_attach"]++
+	}
 	if err := c.Attach(r.ctx, p.D, r.attachOpts(p.Idx)...); err != nil {
 		return failf("ATTACHFAIL", "c%d: %v", p.Idx, err)
 	}
@@ -470,6 +479,19 @@ func (r *Runner) Step(s Step) *Failure {
 			return r.ExFail
 		}
 		return nil
+	case s.Op == "preattach":
+		// a late attacher that edited its new document before attaching it
+		if len(r.Peers) >= r.MaxPeers {
+			return r.Step(Step{Who: s.Who, Op: "sync"})
+		}
+		r.log("c%d: late attach of a document that was edited before", len(r.Peers))
+		r.Ev["late_attach"]++
+		ops := []string{"rootset", "oset", "aadd", "cinc", "tedit", "rootset", "aadd"}
+		var pre []Step
+		for i := 0; i < 1+s.C%3; i++ {
+			pre = append(pre, Step{Op: ops[(s.A+i*3+s.B)%len(ops)], A: s.A + i, B: s.B + i, C: 1 + (s.C+i)%5})
+		}
+		return r.addPeer(true, pre...)
 	case s.Op == "attach":
 		if len(r.Peers) >= r.MaxPeers {
 			return r.Step(Step{Who: s.Who, Op: "sync"})
